@@ -57,9 +57,9 @@
         under a rollback journal, Open - hence for EVERY history made of these
         steps from an empty node the position's checksum is the from-scratch
         checksum of the logical database (C04_history).
-   NOT proved (C04_history_partial): a node that changes role inside such a
-   history (primary <-> replica: C04_replica_history starts from an empty node),
-   a partial SQLite checkpoint that copies an older version than the log's last
+        A node may change role inside the history: files from the stream
+        (GRecv) between its own transactions.  Drop and import are steps too.
+   NOT proved (C04_history_partial): a partial SQLite checkpoint that copies an older version than the log's last
    one (readers holding it back), and transactions LiteFS fails inside
    (I/O errors); these are re-checked on
    every run by the correspondence (the model re-executes every generated
@@ -328,7 +328,12 @@ Proof. exact wal_full_history_example. Qed.
                           versions) under a rollback journal while the header still says WAL, and commits;
      GRestart             LiteFS restarts: Open, which checkpoints whatever log it finds, recomputes from the file and
                           re-applies the newest transaction file ([wf_restart]: that file is well-formed, has the pages it
-                          adds beyond the header's size, and there is a database file or it writes page 1).
+                          adds beyond the header's size, and there is a database file or it writes page 1);
+     GRecv f              the node, a replica for the moment, is sent a transaction file: refused when it does not continue
+                          the position, else placed and applied ([wf_recv]: the file is well-formed and has the pages it adds
+                          beyond the database size; in WAL mode the log has been checkpointed);
+     GDrop                the database is dropped;
+     GImport pages commit a database image with every page 1..commit replaces whatever is there ([wf_import]).
    [v'] is the logical database [run_gsteps] computes: in WAL mode the overlay of frames on the file at the switch or at
    the last restart; otherwise the file.  For EVERY such history from an empty node: in rollback-journal mode the
    position's checksum (once there is one) is the from-scratch checksum of the database file and the cache is the file's;
@@ -347,10 +352,12 @@ Print Assumptions C04_history.
 
 (* Non-vacuity: create the database; restart; switch to WAL mode; a WAL transaction that grows the database; restart with the
    log in place; another transaction; SQLite's complete checkpoint with the restart of the log; back to rollback-journal
-   mode; a rollback-journal transaction *)
+   mode; a rollback-journal transaction; a file from the stream applied, a stray one refused; a transaction of its own;
+   a drop; an import *)
 Example C04_history_nonvacuous :
   let pg h n := mkPg (fl h) n false in
   let pw h n := mkPg (fl h) n true in
+  let x3 a b c := fl (N.lxor (N.lxor (fl a) (fl b)) (fl c)) in
   let gs := [GJ (HTx [] [AWrite 1 (pg 11 2); AWrite 2 (pg 12 0)] 2);
              GRestart;
              GSwitch [] [AWrite 1 (pw 13 2)] 2;
@@ -359,11 +366,16 @@ Example C04_history_nonvacuous :
              GW (W2Commit [(2, pw 24 0)] 3);
              GW W2SqlRestart;
              GLeave (pg 15 3) 3;
-             GJ (HTx [] [AWrite 3 (pg 36 0)] 3)] in
+             GJ (HTx [] [AWrite 3 (pg 36 0)] 3);
+             GRecv (mkLtx 7 7 (x3 15 24 36) (x3 15 27 36) 3 [(2, pg 27 0)]);
+             GRecv (mkLtx 9 9 0 0 1 []);
+             GJ (HTx [] [AWrite 1 (pg 18 3)] 3);
+             GDrop;
+             GImport [(1, pg 41 2); (2, pg 42 0)] 2] in
   wf_gsteps (init 2097153) gs /\
   match run_gsteps (init 2097153) (fun _ => 0) gs with
-  | Some (s', v') => (wal_mode s', txid s', pageN s', chk s' =? fl (N.lxor (N.lxor (fl 15) (fl 24)) (fl 36)), lenN (dbfile s'),
-                      map (file_h s') [1; 2; 3]) = (false, 6, 3, true, 3, [fl 15; fl 24; fl 36])
+  | Some (s', v') => (wal_mode s', txid s', pageN s', chk s' =? fl (N.lxor (fl 41) (fl 42)), lenN (dbfile s'),
+                      map (file_h s') [1; 2; 3]) = (false, 10, 2, true, 2, [fl 41; fl 42; 0])
   | None => False
   end.
 Proof. exact g_history_example. Qed.
